@@ -144,6 +144,7 @@ type op struct {
 	Typ  string `json:"typ,omitempty"`  // gob: A | B
 	Rbuf int    `json:"rbuf"`           // raw recv: caller's buffer
 	Want string `json:"want"`           // gob recv: type decoded into
+	Free *int   `json:"free,omitempty"` // recv: free slots left in the descriptor table (absent / -1 = plenty)
 }
 
 type kase struct {
@@ -169,6 +170,7 @@ type event struct {
 	Fdd  int    `json:"fdd"`  // change of the process's open descriptor count over the call
 	Rbuf int    `json:"rbuf"` // raw recv: caller's buffer
 	Want string `json:"want"` // gob recv: M | X
+	Free int    `json:"free"` // recv: free descriptor slots during the call (-1 = no pressure)
 	// receive observations
 	N      int    `json:"n"`      // bytes delivered (raw: return value; gob: len(Data))
 	Mids   []int  `json:"mids"`   // ids of sent messages whose content equals the delivered bytes
@@ -232,6 +234,30 @@ func initFdCount() {
 	if err := syscall.Stat("/proc/self/fd", &st); err == nil && int(st.Size) == len(fdList()) && st.Size > 0 {
 		statCounts = true
 	}
+}
+
+// squeeze lowers the soft RLIMIT_NOFILE so that exactly k descriptor numbers below the limit are
+// unused (the kernel can then install only k of the descriptors of an incoming message and flags
+// the message MSG_CTRUNC); it returns the function that restores the limit.  Nothing in between
+// needs a new descriptor: the receive call, and counting descriptors with stat().
+func squeeze(k int) (func(), error) {
+	open := fdList()
+	var lim syscall.Rlimit
+	if err := syscall.Getrlimit(syscall.RLIMIT_NOFILE, &lim); err != nil {
+		return nil, err
+	}
+	unused, l := 0, 0
+	for ; unused < k || open[l]; l++ { // l ends on the (k+1)-th unused number
+		if !open[l] {
+			unused++
+		}
+	}
+	low := lim
+	low.Cur = uint64(l)
+	if err := syscall.Setrlimit(syscall.RLIMIT_NOFILE, &low); err != nil {
+		return nil, err
+	}
+	return func() { syscall.Setrlimit(syscall.RLIMIT_NOFILE, &lim) }, nil
 }
 
 // sweep closes descriptors that were not open before the case (leaked by the code under
@@ -475,13 +501,23 @@ func runCase(c kase, fs *files, own, forged []int) (*trace, error) {
 			b.SetReadDeadline(time.Now().Add(3 * time.Second))
 			var m unixsocket.Msg
 			var rerr error
-			ev.Rbuf, ev.Want = o.Rbuf, o.Want
+			ev.Rbuf, ev.Want, ev.Free = o.Rbuf, o.Want, -1
+			restore := func() {}
+			if o.Free != nil && *o.Free >= 0 {
+				ev.Free = *o.Free
+				r, err := squeeze(*o.Free)
+				if err != nil {
+					return nil, fmt.Errorf("squeeze: %w", err)
+				}
+				restore = r
+			}
 			n0 := fdCount()
 			if c.Layer == "raw" {
 				buf := bytes.Repeat([]byte{0xEE}, o.Rbuf)
 				var n int
 				n, m, rerr = b.RecvMsg(buf)
 				ev.Fdd = fdCount() - n0
+				restore()
 				ev.N = n
 				if rerr == nil {
 					for _, s := range sent {
@@ -507,6 +543,7 @@ func runCase(c kase, fs *files, own, forged []int) (*trace, error) {
 					id, data = v.Id, v.Data
 				}
 				ev.Fdd = fdCount() - n0
+				restore()
 				if rerr == nil {
 					ev.N = len(data)
 					for _, s := range sent {
